@@ -86,7 +86,7 @@ def main():
         explanation=(
             "CrossHair/z3 symbolic execution of the real run_file_rename (+ simplify_fname / strip_zdir) over an in-memory "
             "directory with the renamed page, a .zo, a .zot (sub-directory), a .zoq and a .txt file, each carrying two links "
-            "whose page names relate to the renamed page A as: A itself, A+suffix, prefix+A, A/sub, sub/A, A.pdf, A:x, A+, A-x, "A x", unrelated, the new "
+            "whose page names relate to the renamed page A as: A itself, A+suffix, prefix+A, A/sub, sub/A, A.pdf, A:x, A+, A-x, A x, unrelated, the new "
             "name B; with and without #anchor; names given with or without the .zo extension. Oracle: file moved, exactly the "
             "links to A retargeted (anchor kept), every other byte and the .txt file unchanged."),
         functions=["zorg.app.runners._run_file.run_file_rename", "zorg.shared.common.simplify_fname", "zorg.shared.common.strip_zdir"],
